@@ -155,7 +155,7 @@ Proof.
   - destruct (rdk SOther line p) eqn:R; cbn [bind]; [|discriminate|exfalso; eapply rdk_nf; eauto].
     destruct ((a =? 0) || (a =? 10) && has flg REG_NEWLINE); [discriminate|]. destruct (Nat.leb (p + re_uclen_at line p) (length line)); discriminate.
   - destruct (re_ucdec line p) as [c| |] eqn:D; cbn [bind]; [|discriminate|exfalso; eapply ucdec_nf; eauto].
-    destruct ((c =? 0) || (c =? 10) && has flg REG_NEWLINE && (nthb s 1 =? 94)); [discriminate|].
+    destruct ((c =? 0) || (c =? 10) && has flg REG_NEWLINE); [discriminate|].
     destruct (rdk SOther line p) eqn:R; cbn [bind]; [|discriminate|exfalso; eapply rdk_nf; eauto].
     destruct (negb (Nat.leb (p + re_uclen_at line p) (length line))); [discriminate|].
     destruct (brk_match 2 (has flg REG_ICASE) (tl s) c) as [r| |] eqn:B; cbn [bind]; [destruct r; discriminate | discriminate | exfalso; eapply brk_match2_nf; eauto].
